@@ -130,7 +130,14 @@ pub unsafe extern "C" fn resolvo_string_from_bytes(
     len: usize,
 ) {
     unsafe {
-        let str = core::str::from_utf8(core::slice::from_raw_parts(bytes, len)).unwrap();
+        // An empty `std::string_view` may carry a null pointer, which
+        // `slice::from_raw_parts` does not accept even for a length of zero.
+        let bytes: &[u8] = if len == 0 {
+            &[]
+        } else {
+            core::slice::from_raw_parts(bytes as *const u8, len)
+        };
+        let str = core::str::from_utf8(bytes).unwrap();
         core::ptr::write(out, String::from(str));
     }
 }
